@@ -16,4 +16,4 @@ Code involved: {', '.join(p['anchors']['files'])}
 
 Task: produce TWO different, realistic changes to the project's source (the kind of slip a maintainer could make in a refactor, clean-up or 'optimisation' — not sabotage with magic constants), each of which BREAKS this property while the code still imports and the project's existing test suite still passes. Ask for changes that need something specific to manifest — a particular interleaving, a fault at a particular point, a multi-step sequence of operations, an unusual input, or two cooperating sites that each look fine alone — NOT ones that ordinary use would expose at once. To check the existing tests run the test files of the packages you touched, one pytest process at a time, e.g. `cd {wt} && /venv/bin/python -m pytest -q -p no:cacheprovider --timeout=600 ioflo/base` (or ioflo/aid, ioflo/aio/http, ioflo/aio/tcp, ioflo/aio/proto ...); tests named testTcpClientServer*, testTLSConnectionVerifyNeither, testTLSConnectionVerifyBothTLSv1 fail on the unmodified code too and do not count.
 
-For each change i in {{1,2}} write into /tmp/seed-{pid}-out/<i>/: `patch.diff` (output of `git diff` in the worktree for that change alone), `demo.py` (a small program that exits 0 on the original code and non-zero on the changed code, printing what differs; it must take the checkout path as argv[1] and insert it at the front of sys.path before importing ioflo), and `meta.json` with keys "property": "{pid}", "summary", "needs_to_manifest" (what specific input/sequence/condition exposes it), "files_changed". Verify yourself: demo exits 0 on the unmodified worktree (`git checkout -- .`), non-zero with the patch applied, and the relevant tests pass with the patch applied. Leave the worktree clean (`git checkout -- .`) at the end. Final message: a two-line summary per change.""")
+For each change i in {{1,2}} write into /tmp/seed-{pid}-out/<i>/: `patch.diff` (output of `git diff` in the worktree for that change alone), `demo.py` (a small program that exits 0 on the original code and non-zero on the changed code, printing what differs; it must take the checkout path as argv[1] and insert it at the front of sys.path before importing ioflo), and `meta.json` with keys "property": "{pid}", "summary", "needs_to_manifest" (what specific input/sequence/condition exposes it), "files_changed". Verify yourself: demo exits 0 on the unmodified worktree (`git checkout -- .`), non-zero with the patch applied, and the relevant tests pass with the patch applied. Never use `git stash` (stashes are shared between worktrees of other people); use `git diff > file`, `git checkout -- .` and `git apply file`. Leave the worktree clean (`git checkout -- .`) at the end. Final message: a two-line summary per change.""")
